@@ -83,17 +83,18 @@ package sumdb
 
 //@ # ---------- tile plumbing: the tile cache is written by SaveTiles only, with exactly the tiles it was given ----------
 //@ func (*Client).tileCacheKey
+//@   requires c != nil
 //@   allocates
-//@   trusted "string concatenation of the client name and the tile path"
+//@   ensures [C01] cache_key_is_name_and_tile_path: result == c.name + "/" + tile.Path()
 //@   props C01
 //@ func (*Client).tileRemotePath
 //@   allocates
-//@   trusted "string concatenation with the tile path"
+//@   ensures [C01] remote_path_is_tile_path: result == "/" + tile.Path()
 //@   props C01
 //@ func (*Client).markTileSaved
 //@   allocates
 //@   modifies "map[tlog.Tile]bool"
-//@   trusted "records the tile in c.tileSaved under tileSavedMu; touches nothing else"
+//@   trusted "records the tile in c.tileSaved under tileSavedMu; touches nothing else (the generic mutex contract would make it havoc the state guarded by the other mutex)"
 //@   props C01
 
 //@ # reading a tile (cache, then network) never writes the cache: what was read is not authenticated yet.
